@@ -518,12 +518,26 @@ func runCase(router *mux.Router, nd *node, c *Case, deadline time.Duration) {
 			}
 		}
 	}
-	// the handler may have answered on the first error while other doPush goroutines still retry: let them finish
+	// the handler may have answered on the first error while the doPush goroutine of the request's other service still retries (it sleeps
+	// RetryTimeoutS = 1 s between two attempts, with no promise pending meanwhile): the case ends when every promise is completed and no new
+	// Request has arrived for 1.5 s -- only scenarios with a failing INSERT have retries
+	retries := false
+	for _, v := range c.Do {
+		retries = retries || v != 0
+	}
 	settle := time.Now().Add(time.Duration(c.Attempts+2) * 1500 * time.Millisecond)
 	if left > 0 {
 		settle = time.Now().Add(300 * time.Millisecond)
 	}
-	for atomic.LoadInt64(&nd.issued) != atomic.LoadInt64(&nd.complete) && time.Now().Before(settle) {
+	lastIssued, quietSince := atomic.LoadInt64(&nd.issued), time.Now()
+	for time.Now().Before(settle) {
+		is, co := atomic.LoadInt64(&nd.issued), atomic.LoadInt64(&nd.complete)
+		if is != lastIssued || is != co {
+			lastIssued, quietSince = is, time.Now()
+		}
+		if is == co && (!retries || left > 0 || time.Since(quietSince) > 1500*time.Millisecond) {
+			break
+		}
 		nd.flushPending()
 		time.Sleep(4 * time.Millisecond)
 	}
@@ -703,9 +717,21 @@ func main() {
 		}
 		return gs
 	}
+	done := make([]int32, len(cases))
+	go func() {
+		for {
+			for i, nd := range nodes {
+				if atomic.LoadInt32(&done[i]) != 0 {
+					nd.flushPending() // the case has ended: what a late retry appends is still flushed (the services' own interval is an hour)
+				}
+			}
+			time.Sleep(10 * time.Millisecond)
+		}
+	}()
 	if *serial {
 		for i, c := range cases {
 			runCase(router, nodes[i], c, dl)
+			atomic.StoreInt32(&done[i], 1)
 			gs := census()
 			c.Obs.Goroutines = len(gs) - base
 			if c.Obs.Goroutines > 0 {
@@ -726,6 +752,7 @@ func main() {
 		go func(i int, c *Case) {
 			defer wg.Done()
 			runCase(router, nodes[i], c, dl)
+			atomic.StoreInt32(&done[i], 1)
 			put(c)
 		}(i, c)
 	}
